@@ -39,12 +39,12 @@ theorem indexByte_some (c : Char) (s : Str) (i : Nat) (h : Go.indexByte c s = so
       simp [splitFirst, hd, h2]
       omega
 
-/-- `uri[:strings.Index(uri, "?")]`, or `uri` when there is no `?`: the model's `stripQuery` -/
-theorem cut_query (uri : Str) :
-    (if Go.stringsIndex uri ['?'] != -1 then Go.sliceTo uri (Go.stringsIndex uri ['?']) else (.ok uri : Go.M Str))
-      = .ok (stripQuery uri) := by
-  unfold Go.stringsIndex stripQuery
-  obtain ⟨r, hr⟩ : ∃ r, Go.indexByte '?' uri = r := ⟨_, rfl⟩
+/-- `s[:strings.Index(s, c)]`, or `s` when `c` does not occur: the text before the first `c` -/
+theorem cut_at (c : Char) (uri : Str) :
+    (if Go.stringsIndex uri [c] != -1 then Go.sliceTo uri (Go.stringsIndex uri [c]) else (.ok uri : Go.M Str))
+      = .ok (splitFirst c uri).1 := by
+  unfold Go.stringsIndex
+  obtain ⟨r, hr⟩ : ∃ r, Go.indexByte c uri = r := ⟨_, rfl⟩
   simp only [hr]
   cases r with
   | none =>
@@ -58,6 +58,11 @@ theorem cut_query (uri : Str) :
     have hc : ¬ ((i : Int) < 0 ∨ (i : Int) > uri.length) := by omega
     simp only [hc, if_false, Int.toNat_natCast, h2]
     rfl
+
+/-- `uri[:strings.Index(uri, "?")]`, or `uri` when there is no `?`: the model's `stripQuery` -/
+theorem cut_query (uri : Str) :
+    (if Go.stringsIndex uri ['?'] != -1 then Go.sliceTo uri (Go.stringsIndex uri ['?']) else (.ok uri : Go.M Str))
+      = .ok (stripQuery uri) := cut_at '?' uri
 
 /-- the path the rules are matched against, in terms of the parser's answer -/
 def pathOf (E : Go.Ext) (uri : Str) : Str :=
